@@ -2,7 +2,7 @@
 # usage: confirm_seed2.sh <Cxx> <variant-letter>   confirm a seeded change from /tmp/seed2/out/<Cxx> against the current /repo tree
 # and store it as /verif/seeded/<Cxx>-<variant>/ (patch.diff, demo_test.go, meta.json with the confirmation)
 export GOFLAGS=-mod=mod GOPROXY=off GOSUMDB=off GOTOOLCHAIN=local
-id=$1; v=$2; src=/tmp/seed2/out/$id
+id=$1; v=$2; src=${SEEDSRC:-/tmp/seed2/out}/$id
 d=$(mktemp -d /tmp/confirm.XXXXXX); trap 'rm -rf "$d"' EXIT
 rsync -a --exclude .git /repo/ "$d/p/"; rsync -a --exclude .git /repo/ "$d/m/"
 at=$(jq -r .demo_placed_at "$src/meta.json"); cmd=$(jq -r .demo_cmd "$src/meta.json")
